@@ -71,6 +71,13 @@ fn gen_nodes(rng: &mut Rng, n: usize) -> Vec<(f64, f64)> {
         };
         nodes.push((u, d));
     }
+    // style 7: every node on the diagonal (design = user) except one interior node that is bent: the on-diagonal nodes
+    // next to it are not redundant, they pin the piecewise-linear map
+    if style == 7 && n >= 4 {
+        for p in nodes.iter_mut() { p.1 = p.0; }
+        let j = 1 + rng.below(n - 2);
+        nodes[j].1 = nodes[j].0 + (nodes[j + 1].0 - nodes[j].0) * 0.25;
+    }
     nodes
 }
 
